@@ -289,3 +289,115 @@ func (g *gen) runConcurrent() {
 		}
 	}
 }
+
+// J. bodies that end cleanly short of their declared Content-Length, the cut point as a dimension:
+// before the first byte, on every member boundary of a multi-member gzip body / frame boundary of a
+// multi-frame zstd body, one byte either side of a boundary, inside a member, one byte before the end;
+// single-stream codings (br, deflate): inside, one byte before the end, complete stream but more declared.
+func (g *gen) runShort() {
+	r, rng := g.r, g.rng.Fork()
+	const bin = "application/octet-stream"
+	type cutSpec struct {
+		kind string
+		at   int
+	}
+	sets := [][]int{{700, 300, 1500}, {40, 20000, 9}}
+	if !r.Quick() {
+		sets = append(sets, []int{4096, 4096, 1}, []int{1, 1, 1}, []int{70000, 5, 3000})
+	}
+	n := 0
+	for _, sizes := range sets {
+		var parts [][]byte
+		var whole []byte
+		for _, sz := range sizes {
+			p := textish(rng, sz)
+			parts = append(parts, p)
+			whole = append(whole, p...)
+		}
+		for ci, c := range []coding{codings[0], codings[3], codings[2], codings[1], codings[4], codings[7]} {
+			var full []byte
+			var bounds []int
+			multi := c.class == "gzip" || c.class == "zstd"
+			switch {
+			case multi:
+				for _, p := range parts {
+					full = append(full, refCompress(c.class, p)...)
+					bounds = append(bounds, len(full))
+				}
+			case len(c.chain) == 1:
+				full = refCompress(c.chain[0], whole)
+			default:
+				full = whole
+			}
+			L := len(full)
+			cuts := []cutSpec{{"zero", 0}, {"inside", L / 3}, {"last-byte", L - 1}}
+			decl := L
+			if multi {
+				for bi, b := range bounds[:len(bounds)-1] {
+					cuts = append(cuts, cutSpec{fmt.Sprintf("boundary%d", bi+1), b}, cutSpec{fmt.Sprintf("boundary%d+1", bi+1), b + 1}, cutSpec{fmt.Sprintf("boundary%d-1", bi+1), b - 1})
+				}
+			} else if len(c.chain) == 1 {
+				cuts = append(cuts, cutSpec{"complete-stream-more-declared", L})
+				decl = L + 10
+			}
+			for _, cut := range cuts {
+				if cut.at < 0 || cut.at > L || cut.at >= decl {
+					continue
+				}
+				g.nextID++
+				s := &script{ID: g.nextID, Payload: whole, PayName: fmt.Sprintf("parts%v", sizes), CE: c.ce, CEClass: c.class,
+					Served: append([]byte{}, full[:cut.at]...), Corrupt: fmt.Sprintf("short-%s@%d/%d", cut.kind, cut.at, decl), SetCL: true, CT: bin, DeclCL: decl}
+				if len(c.chain) == 0 {
+					s.Payload = full
+				}
+				g.w.o.mu.Lock()
+				g.w.o.scripts[s.ID] = s
+				g.w.o.mu.Unlock()
+				for _, st := range stacks {
+					for _, cf := range []cfg{{}, {Auto: true}, {Disable: true, Auto: true}} {
+						k := reqKinds[0]
+						if cf.Auto && (n+ci)%4 == 0 {
+							k = reqKinds[1] // caller Accept-Encoding: AutoDecompression alone decodes (compress.GzipReader on h1)
+						}
+						g.one(exchange{Stack: st, Cfg: cf, Req: k, S: s, Pat: readPats[n%len(readPats)]})
+						r.Count("short.cut=" + cut.kind)
+						n++
+					}
+				}
+				g.drop(s)
+			}
+		}
+	}
+}
+
+// K. state carried from one attempt to the next.  (1) HTTP/1: exchange k reuses a kept-alive connection,
+// the origin reads the request and closes the connection without answering; the transport re-sends the
+// same request on a new connection and gets the (gzip, ...) answer: every attempt must carry the same
+// Accept-Encoding and the answer must be treated as the answer to a first attempt.  (2) all stacks: the
+// caller sends the same *http.Request object through RoundTrip twice.
+func (g *gen) runAttempts() {
+	r, rng := g.r, g.rng.Fork()
+	const bin = "application/octet-stream"
+	warm := g.newScript(payload{"warm", []byte("warm-up\n")}, codings[4], true, bin)
+	p := payload{"text900", textish(rng, 900)}
+	n := 0
+	for _, c := range []coding{codings[0], codings[0], codings[10], codings[2], codings[3], codings[4], codings[6]} {
+		for _, cf := range []cfg{{}, {Auto: true}, {Disable: true}, {Disable: true, Auto: true}} {
+			for _, k := range []reqKind{reqKinds[0], reqKinds[0], reqKinds[1], reqKinds[4]} {
+				// (1) dropped attempt on a reused HTTP/1 connection
+				g.one(exchange{Stack: "h1", Cfg: cf, Req: reqKinds[0], S: warm, Pat: []int{4096}}) // leaves an idle connection
+				s := g.newScript(p, c, n%2 == 0, bin)
+				s.DropFirst = true
+				g.one(exchange{Stack: "h1", Cfg: cf, Req: k, S: s, Pat: readPats[n%len(readPats)]})
+				g.drop(s)
+				// (2) the same request object twice
+				s2 := g.newScript(p, c, n%2 == 1, bin)
+				g.one(exchange{Stack: stacks[n%3], Cfg: cf, Req: k, S: s2, Pat: readPats[n%len(readPats)], Twice: true})
+				r.Count("attempts.same-request-twice")
+				g.drop(s2)
+				n++
+			}
+		}
+	}
+	g.drop(warm)
+}
